@@ -236,7 +236,7 @@ def run(chk):
                    "ladder_total / status_order_matches_source / exit_rule_matches_source (decide over tables regenerated "
                    "from the source)"]
     chk.partial += ["interpreter-level failures (MemoryError, sys.exit inside handlers) are outside the model",
-                    "the stateful phase: suite loop and consumer are modelled as functions (SV/Model/Stateful.lean) and driven against the real code; its queue race is the unit phase's (same repair) and is not re-proved as an LTS"]
+                    "the stateful phase: consumer, suite loop and the instrumented state machine are modelled as functions of their environment (SV/Model/Stateful.lean, StatefulMachine.lean) and driven against the real code; the consumer queue race is the unit phase's (same repair) and is not re-proved as an LTS; a teardown that raises is outside the model"]
     if variant == "asFound":
         chk.violation(KF_RACE, "events put by a worker between the consumer's queue.Empty and its liveness test are lost: "
                       "the phase is closed as 'nothing to test' with exit code 0", probe)
@@ -248,6 +248,11 @@ def run(chk):
         pass
     for _ in E.stateful_consumer_correspondence(chk, chk.budget(25, 300)):
         pass
+    # the instrumented state machine (setup / step / validate_response / teardown) and every arm of the suite loop with
+    # its state, driven by a scripted stand-in for Hypothesis against SV/Model/StatefulMachine.lean
+    chk.variants["execute_state_machine_loop:flaky-arm"] = E.detect_flaky_variant()
+    E.stateful_machine_checks(chk, chk.budget(120, 1500), chk.budget(150, 2000), "C05")
+    E.intermittent_error_probe(chk, "C05")
     ladder_runs(chk)
     fault_runs(chk, chk.budget(2, 12))
     streams: list = []
